@@ -1,10 +1,10 @@
-\* generator: every document of <= 4 nodes, printed for the builder binding (vh builder-replay, Trace_Builder)
+\* generator: every document of <= 5 nodes, printed for the builder binding (vh builder-replay, Trace_Builder)
 SPECIFICATION SpecB
 CONSTANTS
   Slip <- NoSlip
   LeafKinds <- BLeaves
   ContKinds <- BConts
-  MaxNodes = 4
+  MaxNodes = 5
   MaxDepth = 2
 INVARIANT EmitB
 CHECK_DEADLOCK FALSE
